@@ -4740,22 +4740,10 @@ where
                         .delaunay_repair_insertion_count
                         .saturating_add(1);
                     let (v_key, used_heuristic) = self.maybe_repair_after_insertion(v_key, hint)?;
-                    verif_failpoint!(
-                        "dt/insert/after_repair",
-                        InsertionError::CavityFilling {
-                            message: "verif: injected failure after post-insertion repair".to_string(),
-                        }
-                    );
                     if used_heuristic {
                         self.insertion_state.last_inserted_cell = None;
                     }
                     self.maybe_check_after_insertion()?;
-                    verif_failpoint!(
-                        "dt/insert/after_check",
-                        InsertionError::DelaunayValidationFailed {
-                            message: "verif: injected failure after post-insertion check".to_string(),
-                        }
-                    );
                     Ok(v_key)
                 }
                 InsertionOutcome::Skipped { error } => Err(error),
@@ -4854,23 +4842,11 @@ where
                         .saturating_add(1);
                     let (vertex_key, used_heuristic) =
                         self.maybe_repair_after_insertion(vertex_key, hint)?;
-                    verif_failpoint!(
-                        "dt/insert/after_repair",
-                        InsertionError::CavityFilling {
-                            message: "verif: injected failure after post-insertion repair".to_string(),
-                        }
-                    );
                     if used_heuristic {
                         self.insertion_state.last_inserted_cell = None;
                         hint = None;
                     }
                     self.maybe_check_after_insertion()?;
-                    verif_failpoint!(
-                        "dt/insert/after_check",
-                        InsertionError::DelaunayValidationFailed {
-                            message: "verif: injected failure after post-insertion check".to_string(),
-                        }
-                    );
                     InsertionOutcome::Inserted { vertex_key, hint }
                 }
                 other @ InsertionOutcome::Skipped { .. } => other,
@@ -4911,6 +4887,12 @@ where
         ) {
             return Ok((vertex_key, false));
         }
+        verif_failpoint!(
+            "dt/insert/repair",
+            InsertionError::CavityFilling {
+                message: "verif: injected failure of the post-insertion repair".to_string(),
+            }
+        );
 
         let vertex_uuid = self
             .tri
@@ -5064,6 +5046,12 @@ where
         if !policy.should_check(insertion_count) {
             return Ok(());
         }
+        verif_failpoint!(
+            "dt/insert/check",
+            InsertionError::DelaunayValidationFailed {
+                message: "verif: injected failure of the post-insertion Delaunay check".to_string(),
+            }
+        );
 
         self.is_valid()
             .map_err(|e| InsertionError::DelaunayValidationFailed {
